@@ -26,6 +26,30 @@ CLAIMED = {
    note="States are deduplicated on a reflection dump of the concrete object (sound for deterministic objects). Values range over small sets that include the type extremes."),
 }
 
+CLAIMED.update({
+ "C05": dict(engine="trie", design="5/C05", technique="explicit-state exploration of the OHLCV-bar input trie on the real strategies (base, decorated, compound): action count and Hold-through-warm-up invariants on every node",
+   text="Every bar word over a six-bar OHLCV alphabet up to depth w+3..w+5, for every period/threshold configuration in the box, is executed on the real strategy (40 base strategies, decorators and compounds over them); each node must yield exactly n actions in {Sell,Hold,Buy} with Hold through the warm-up (only Holds, at least n, for n < w).",
+   note="Finite alphabet, depths and configuration boxes as recorded; compounds are judged with the smallest warm-up of their members (Or/Split/Majority may act as soon as one member does)."),
+ "C06": dict(engine="trie", design="5/C06", technique="explicit-state exploration of the OHLCV-bar input trie; action_i compared with the documented rule over documented-formula reference indicators",
+   text="For every base strategy and configuration every node of the bar trie is executed and every action is compared with the documented decision rule evaluated on reference indicator values (the C01 references) computed from the documented price fields; positions where a compared pair ties within rounding are exempt.",
+   note="Rules are restated from doc comments and the inline comments of Compute (trusted); where the documentation is silent the rule follows the code (recorded per entry). Known contradictions are classified by exact as-is models."),
+ "C07": dict(engine="history-bfs", design="5/C07", technique="bounded-exhaustive enumeration of all action words (and closing words) fed through scripted stub strategies into the real combinators; reference vote functions / state machines and whole-history safety invariants",
+   text="All tuples of action words over {Sell,Hold,Buy} for k=1..3 scripted sub-strategies (lengths to 7/5/3), all closing words over {1,2,4,3} for the price-dependent decorators, percentages {0,0.25,0.5}, nesting depth 2: each case runs the real combinator and is compared with the documented combination and the No-Loss / Stop-Loss safety invariants.",
+   note="Stub strategies emit exactly one action per snapshot; MACD-RSI is checked against its real sub-strategies run separately."),
+ "C08": dict(engine="history-bfs", design="5/C08", technique="bounded-exhaustive enumeration of all (value word, action word) pairs up to length 5-6 on the real Outcome/Normalize/Denormalize/CountTransactions; reference portfolio simulator and per-invariant oracles",
+   text="Every action word x every value word over {1,2,4} (all length pairs incl. unequal) is run through the real pipelines; outcomes must match the cash/shares simulator, stay >= -1, be 0 before the first Buy, equal the value ratio for buy-and-hold bit-for-bit, be unchanged by NormalizeActions, and normalised streams must alternate.",
+   note="Values over {1,2,4}; lengths to 5 (6 thorough)."),
+ "C10": dict(engine="history-bfs", design="5/C10", technique="explicit-state BFS over Append histories on the three real repositories (SQL over an in-harness database/sql driver) with deduplication on the concrete persisted state; all reads compared with a map model in every state",
+   text="BFS to depth 4-5 over Append histories (2 assets, 5 date-monotone batches incl. empty and equal-date) from several initial states; in every reachable state every read is issued and compared with the map model and must not change the state. Each history is one controlled execution, so visibility-after-return and hangs are decided deterministically.",
+   note="SQL repository over the harness's conforming fake driver only; finite batches/dates."),
+ "C11": dict(engine="history-bfs", design="5/C11", technique="bounded-exhaustive value catalogues (cartesian products per row shape), all header permutations, and explicit-state BFS over write/append file histories deduplicated on file bytes",
+   text="Cartesian products of boundary values for every supported kind through WriteToFile/ReadFromFile (with and without header), all 24 header permutations with extra/missing columns, BFS over write/append/appendOrWrite histories with a list model read back after every step, and ChanToJSON->JSONToChan on the same catalogues.",
+   note="Carriage returns excluded (encoding/csv trait); AppendToFile only on files that already have content."),
+ "C12": dict(engine="mc-dpor", design="5/C12", technique="stateless model checking of the real Sync worker pool: DPOR with sleep sets over all Mazurkiewicz traces per scenario, vector-clock race detector on every execution, delay-bounded cross-check",
+   text="1200 scenarios (initial target content x source presence x injected append failure x asset list mode x workers 1-3 x in-memory/file-system target, each run twice) are explored over ALL schedules of the real worker pool by DPOR; every execution must return, produce the reference target content once, report an error iff an asset failed, and contain no happens-before race.",
+   note="Delay 0; heavier scenarios (3 workers with several failing assets, 3 assets in memory) run in the thorough tier under an execution cap that is reported."),
+})
+
 checks = []
 for pid, c in CLAIMED.items():
     checks.append({
